@@ -45,13 +45,13 @@ attribute [local instance 3000] fieldTrig
 theorem C06_exact_network_solution_zero (net : PE.Net ℝ) (np : NetProblem ℝ) (u : Unknowns ℝ)
     (hpe : projectEquations net = .ok (np, u))
     (hex : ∀ ob ∈ revisedObs u.net, ExactObs (sigmaOf u.net) ob)
-    (hna : ∀ ob ∈ revisedObs u.net, NoAlias ob) (hm0 : np.m0 ≠ 0)
+    (hm0 : np.m0 ≠ 0)
     (Pc : Matrix (Fin (toProblem np).m) (Fin (toProblem np).m) ℝ) (hPc : Sigma np * Pc = 1)
     (hreg : Env.RegListOK (toProblem np)) {τ : ℝ} (hτ : GapThresholds τ)
     (hgap : RankGap (toProblem np).A ((np.m0 * np.m0) • Pc) (toProblem np).S τ)
     (alg : Alg) (halg : alg ≠ .svd) (a : NetAnswer ℝ) (hs : netSolve alg np = .ok a) :
     toVec (toProblem np).n a.x = 0 ∧ toVec (toProblem np).m a.r = 0 ∧ a.pvv = 0 :=
-  exact_network_solution_zero net np u hpe hex hna hm0 Pc hPc hreg hτ hgap alg halg a hs
+  exact_network_solution_zero net np u hpe hex hm0 Pc hPc hreg hτ hgap alg halg a hs
 
 /-- the carrier of the theorem above (`scalarOfField` with `Real.sqrt`, sin, cos, `atan2 y x = arg (x + iy)`, arccos,
     π) is the `TrigScalar ℝ` instance at which C05's right-hand-side / Jacobian lemmas and the other C06 fixed-point
@@ -82,7 +82,7 @@ example (alg : Alg) (halg : alg = .chol ∨ alg = .gso) :
     ∃ a, netSolve alg Ex.npX = .ok a ∧ toVec (toProblem Ex.npX).n a.x = 0 ∧ toVec (toProblem Ex.npX).m a.r = 0 ∧ a.pvv = 0 := by
   obtain ⟨a, ha⟩ := Ex.npX_answers alg halg
   exact ⟨a, ha, C06_exact_network_solution_zero Ex.netWexact Ex.npX Ex.uX Ex.pe_eq
-    (by rw [Ex.uX_robs, Ex.uX_sigma]; exact Ex.robs_exact) (by rw [Ex.uX_robs]; exact Ex.robs_noalias)
+    (by rw [Ex.uX_robs, Ex.uX_sigma]; exact Ex.robs_exact)
     (by show (2 : ℝ) ≠ 0; norm_num) Ex.PcX Ex.npX_sigma_inv Ex.npX_reg Props.C01.C01_gap_thresholds_default Ex.npX_rankGap alg
     (by rcases halg with rfl | rfl <;> decide) a ha⟩
 
@@ -101,7 +101,7 @@ theorem C06_refine_adjustment_fixed_point_pipeline (alg : Alg) (halg : alg ≠ .
     (hex : ∀ o ∈ obs, C06RA.DhExact σ xyz o)
     (hview : ∀ ob ∈ revisedObs u.net, (sigmaOf u.net).view ob = σ.view ob)
     (hsub : ∀ ob ∈ revisedObs u.net, ∃ o ∈ obs, ob = (C06RA.stored σ xyz o).nobs)
-    (hna : ∀ ob ∈ revisedObs u.net, NoAlias ob) (hm0 : np.m0 ≠ 0)
+    (hm0 : np.m0 ≠ 0)
     (Pc : Matrix (Fin (toProblem np).m) (Fin (toProblem np).m) ℝ) (hPc : Sigma np * Pc = 1)
     (hreg : Env.RegListOK (toProblem np)) {τ : ℝ} (hτ : GapThresholds τ)
     (hgap : RankGap (toProblem np).A ((np.m0 * np.m0) • Pc) (toProblem np).S τ) :
@@ -109,7 +109,7 @@ theorem C06_refine_adjustment_fixed_point_pipeline (alg : Alg) (halg : alg ≠ .
       @RA.refineAdjustment ℝ instTrigScalarReal (C06PL2.peEnv alg mk ra fuel) (maxIter + 1)
           ⟨σ, xyz, obs.map (C06RA.stored σ xyz), i0⟩
         = some (⟨σ, xyz, obs.map (C06RA.stored σ xyz), 0⟩, true, false) :=
-  C06PL2.refineAdjustment_fixed_point_pipeline alg halg mk σ xyz obs np u a hpe hs hex hview hsub hna hm0 Pc hPc hreg hτ hgap
+  C06PL2.refineAdjustment_fixed_point_pipeline alg halg mk σ xyz obs np u a hpe hs hex hview hsub hm0 Pc hPc hreg hτ hgap
 
 /-- non-vacuity on the levelling network (no from_dh/to_dh): every hypothesis holds for cholesky and gso, so
     `refine_adjustment()` over the executed `project_equations()` ∘ `netSolve` returns with 0 iterations -/
@@ -120,7 +120,7 @@ example (alg : Alg) (halg : alg = .chol ∨ alg = .gso) : ∃ f0 : Nat, ∀ fuel
   obtain ⟨a, ha⟩ := Ex.npX_answers alg halg
   obtain ⟨f0, h⟩ := C06_refine_adjustment_fixed_point_pipeline alg (by rcases halg with rfl | rfl <;> decide)
     (fun _ _ => Ex.netWexact) C06PL2.Ex.σW C06PL2.Ex.xyzW C06PL2.Ex.odW Ex.npX Ex.uX a Ex.pe_eq ha C06PL2.Ex.odW_exact
-    (fun _ _ => rfl) C06PL2.Ex.odW_sub (by rw [Ex.uX_robs]; exact Ex.robs_noalias) (by show (2 : ℝ) ≠ 0; norm_num) Ex.PcX
+    (fun _ _ => rfl) C06PL2.Ex.odW_sub (by show (2 : ℝ) ≠ 0; norm_num) Ex.PcX
     Ex.npX_sigma_inv Ex.npX_reg Props.C01.C01_gap_thresholds_default Ex.npX_rankGap
   exact ⟨f0, fun fuel hf => h _ fuel hf 4 0⟩
 
